@@ -109,8 +109,10 @@ func (p *dnsPacket) Write(b []byte) (int, error) {
 	return n, nil
 }
 func decodePacket(w io.Writer, b []byte) (int, error) {
+	if len(b) < 12 {
+		return 0, io.ErrUnexpectedEOF
+	}
 	var (
-		_ = b[12]
 		q = int(b[4])<<8 | int(b[5])
 		c = int(b[6])<<8 | int(b[7])
 		t = int(b[10])<<8 | int(b[11])
@@ -118,7 +120,7 @@ func decodePacket(w io.Writer, b []byte) (int, error) {
 	)
 	for ; q > 0; q-- {
 		for i := 0; i < 64; {
-			if i >= len(b) || s > len(b) {
+			if i >= len(b) || s >= len(b) {
 				return 0, io.ErrUnexpectedEOF
 			}
 			if i = int(b[s]); i == 0 {
@@ -132,7 +134,7 @@ func decodePacket(w io.Writer, b []byte) (int, error) {
 		}
 	}
 	for ; c > 0; c-- {
-		if s += 10; s > len(b) {
+		if s += 10; s+1 >= len(b) {
 			return 0, io.ErrUnexpectedEOF
 		}
 		s += int(b[s])<<8 | int(b[s+1]) + 2
@@ -144,9 +146,13 @@ func decodePacket(w io.Writer, b []byte) (int, error) {
 		if b[s] != 0xC0 || b[s+1] != 0x0C || b[s+2] != 00 || b[s+3] != 0xA || b[s+4] != 0 || b[s+5] != 1 {
 			return 0, io.ErrNoProgress
 		}
-		s += 10
+		if s += 10; s+1 >= len(b) {
+			return 0, io.ErrUnexpectedEOF
+		}
 		i = int(b[s])<<8 | int(b[s+1])
-		s += 2
+		if s += 2; s+i > len(b) {
+			return 0, io.ErrUnexpectedEOF
+		}
 		if _, err := w.Write(b[s : s+i]); err != nil {
 			return 0, err
 		}
